@@ -3,6 +3,7 @@ package main
 import (
 	"container/list"
 	"container/ring"
+	"time"
 
 	"gopkg.in/typ.v4/lists"
 )
@@ -266,8 +267,13 @@ func (p *ringPair) gid(r *ring.Ring) int {
 
 func driveRings(plan []M, out *Out, _ []string) {
 	var p *ringPair
+	skipToReset := false
 	for _, c := range plan {
 		op, r, q, k := str(c, "op"), num(c, "r"), num(c, "q"), num(c, "k")
+		if skipToReset && op != "Reset" {
+			continue
+		}
+		skipToReset = false
 		ev := M{"op": op, "r": r, "q": q, "k": k, "fret": 0, "gret": 0}
 		if op == "Reset" {
 			p = &ringPair{}
@@ -351,7 +357,8 @@ func driveRings(plan []M, out *Out, _ []string) {
 		obs, _ := c["obs"].([]any)
 		fo := M{"len": []int{}, "do": [][]int{}, "next": []int{}, "prev": []int{}}
 		gobs := M{"len": []int{}, "do": [][]int{}, "next": []int{}, "prev": []int{}}
-		protect(func() {
+		hung := false
+		withWatchdog(3*time.Second, &hung, func() {
 			ln, do, nx, pv := []int{}, [][]int{}, []int{}, []int{}
 			for i, x := range p.fr {
 				if i < len(obs) && obs[i] == true {
@@ -364,6 +371,14 @@ func driveRings(plan []M, out *Out, _ []string) {
 			}
 			fo = M{"len": ln, "do": do, "next": nx, "prev": pv}
 		})
+		if hung {
+			// a corrupted ring can make Len/Do loop for ever: recorded, and the rest of this plan is skipped
+			ev["fpanic"] = "hang: observation did not return within 3s"
+			ev["f"], ev["g"] = M{"hang": true}, M{"hang": false}
+			out.Emit(ev)
+			skipToReset = true
+			continue
+		}
 		protect(func() {
 			ln, do, nx, pv := []int{}, [][]int{}, []int{}, []int{}
 			for i, x := range p.gr {
@@ -389,4 +404,18 @@ func anyInt(v any) int {
 		return i
 	}
 	return 0
+}
+
+// withWatchdog runs f (panics recovered) on its own goroutine and gives up after d: *hung is set and the goroutine abandoned.
+func withWatchdog(d time.Duration, hung *bool, f func()) {
+	done := make(chan struct{})
+	go func() {
+		defer close(done)
+		protect(f)
+	}()
+	select {
+	case <-done:
+	case <-time.After(d):
+		*hung = true
+	}
 }
